@@ -3,7 +3,7 @@
 # usage: tools/pygen_try.sh [repo-dir] [coq-dir] [props...]   (defaults: /repo, /work/pygen/coq, all four)
 # PYGEN_HARNESS=<dir> uses the translator of another harness copy (default /verif/harness)
 R="${1:-/repo}"; C="${2:-/work/pygen/coq}"; shift; shift
-P="${@:-C10gen TieGen C15gen C18gen}"
+P="${@:-C10gen TieGen C15gen C18gen C12gen C14gen}"
 cd ${PYGEN_HARNESS:-/verif/harness} && /venv/bin/python -m vharness.pytrans "$R" "$C" >/dev/null 2>&1 || { echo "TRANSLATOR CRASHED"; exit 2; }
 cd "$C" && make Makefile.coq >/dev/null 2>&1
 T=""
